@@ -342,6 +342,63 @@ def w_history(S_unused, item):
     return res
 
 
+def w_instance_history(S_unused, item):
+    """C15: one module instance called on a sequence of inputs of different batch size, channel count and spatial
+    size (and back) vs a freshly constructed instance for each call.  item = ((kind, params), repo)"""
+    return _with_nl(_w_instance_history)(S_unused, (item[0][0], item))
+
+
+def _w_instance_history(S_unused, wrapped):
+    (kind, ptuple), repo = wrapped[1]
+    p = dict(ptuple)
+    res = {'cmp': 0, 'diff': 0, 'findings': [], 'sample': None}
+    c0 = 3 if 'combine_colour' in p else 2
+    grow = {k: p[k] + 2 for k in ('H', 'W', 'N') if k in p}
+    variants = [(2, c0, {}), (1, c0, {}), (1, c0, grow), (2, c0, {})]
+    if 'combine_colour' not in p:
+        variants.insert(2, (1, 3, {}))
+    shared = Session(repo)
+    try:
+        f0, _, _, label = entries.build(shared, kind, p, nb=1, c=c0)
+    except PyExc:
+        return res
+    module = getattr(f0, 'self_obj', None)
+    if module is None:
+        raise AnalysisError('anchor-missing', 'entry kind %s does not call a module instance' % kind)
+    from .. import nonlin as _nl
+    got = []
+    for nb, c, upd in variants:
+        pv = dict(p, **upd)
+        rb0 = len(_nl.REBASE_LOG)
+        f, args, ins, label = entries.build(shared, kind, pv, nb=nb, c=c, module=module)
+        o = shared.run(f, *args)
+        shared.take_events()
+        shared.take_findings()
+        got.append(fingerprint(entries.flatten(o.value), ins, rb0) if o.kind == 'ok' else
+                   (o.kind, getattr(o.exc, 'name', getattr(o.exc, 'rule', ''))))
+    for i, (nb, c, upd) in enumerate(variants):
+        pv = dict(p, **upd)
+        fresh = Session(repo)
+        rb0 = len(_nl.REBASE_LOG)
+        f, args, ins, label = entries.build(fresh, kind, pv, nb=nb, c=c)
+        o = fresh.run(f, *args)
+        alone = fingerprint(entries.flatten(o.value), ins, rb0) if o.kind == 'ok' else \
+            (o.kind, getattr(o.exc, 'name', getattr(o.exc, 'rule', '')))
+        res['cmp'] += 1
+        if alone != got[i]:
+            res['diff'] = 1
+            res['findings'].append(finding(
+                'R-PURE', label, 'instance-history-dependence',
+                '%s with %s: call %d (batch %d, %d channels, size %s) on an instance that already served the calls %s '
+                'gives a different result than on a freshly constructed instance'
+                % (label, p, i + 1, nb, c, upd or 'unchanged', [(v[0], v[1], v[2] or 'unchanged') for v in variants[:i]])))
+            break
+    if not res['diff']:
+        res['sample'] = {'entry': label, 'params': p, 'same_instance_calls': len(variants),
+                         'verdict': 'every call equals the same call on a fresh instance'}
+    return res
+
+
 # ----------------------------------------------------------------------- C16
 def w_dtype(S, item):
     return _with_nl(_w_dtype)(S, item)
